@@ -73,6 +73,9 @@ func (h *httpSim) handle(w http.ResponseWriter, r *http.Request) {
 	}
 	h.lines = append(h.lines, line)
 	idx := len(h.lines)
+	if strings.Contains(q, "<show><jobs>") {
+		h.polls++ // every poll counts, answered or not
+	}
 	fault := idx == h.faultPos
 	if fault {
 		h.faultAt = idx
@@ -157,7 +160,6 @@ func (h *httpSim) panos(w http.ResponseWriter, r *http.Request, q string) {
 		}
 	case v.Get("type") == "op" && strings.Contains(v.Get("cmd"), "<jobs>"):
 		h.mu.Lock()
-		h.polls++
 		n := h.polls
 		h.mu.Unlock()
 		res := h.sc.JobResult
